@@ -25,9 +25,15 @@ func main() {
 	drv := flag.String("ppdrv", "", "path of the model driver")
 	replay := flag.String("replay", "", "replay file")
 	det := flag.Uint64("det", 0, "print the determinism digest for this seed and exit")
+	detOrder := flag.Int("detorder", -1, "process the order-independence inputs under -detdir in this order and print one digest per input")
+	detDir := flag.String("detdir", "", "directory prepared by the parent for -detorder")
 	flag.BoolVar(&searchMode, "search", false, "search mode: a proof or correspondence broke, look harder for a failing input")
 	flag.Parse()
 	log.SetOutput(io.Discard)
+	if *detOrder >= 0 {
+		detOrderRun(*detDir, *detOrder, *det)
+		return
+	}
 	if *det != 0 {
 		fmt.Println(detDigest(*det))
 		return
